@@ -722,11 +722,11 @@ def enc_hdrs(pairs):
     return enc_list(list(d.items()), lambda kv: S(kv[0]) + enc_list(kv[1], S))
 
 
-def enc_jar(pairs):
-    d = {}
-    for n, v in pairs:
-        d[n] = cookie_rendered(n, v)
-    return enc_list(list(d.items()), lambda kv: S(kv[0]) + S(kv[1]))
+def enc_jar(entries):
+    jar = http.cookies.SimpleCookie()
+    for c in entries:
+        cookie_morsel(jar, c[0], c[1], c[2] if len(c) > 2 else None)
+    return enc_list([(k, m.OutputString()) for k, m in jar.items()], lambda kv: S(kv[0]) + S(kv[1]))
 
 
 _dummy = Rec()
@@ -756,7 +756,9 @@ BOOM_EJSON = json.dumps(repr(Boom('boom')))
 def enc_resp(r):
     code, line = status_of(r['status'])
     bt, bj = obj_texts(r['body'])
-    return ([code] + S(line) + enc_hdrs(r['headers']) + enc_jar(r['cookies']) + enc_out(r['body'])
+    jar = (enc_list(r['cookies_rendered'], lambda kv: S(kv[0]) + S(kv[1])) if 'cookies_rendered' in r
+           else enc_jar(r['cookies']))
+    return ([code] + S(line) + enc_hdrs(r['headers']) + jar + enc_out(r['body'])
             + S(bt) + ([0] if bj is None else [1] + S(bj)) + S(json.dumps(repr(None))) + [0])
 
 
@@ -793,12 +795,33 @@ def enc_out(o):
     raise ValueError(k)
 
 
+def enc_muts(ms):
+    """the model's mutation list (one harness mutation may be several of the model's)"""
+    out = []
+    for m in ms:
+        if m['m'] == 'clear' and m.get('ns') is not None:
+            out += [[6] + S(n) for n in m['ns']]
+        elif m['m'] == 'update':
+            out += [[1] + S(n) + S(v) for n, v in dict(m['items']).items()]
+        else:
+            out.append(enc_mut(m))
+    return [len(out)] + [x for e in out for x in e]
+
+
 def enc_mut(m):
     if m['m'] == 'status':
         code, line = status_of(m['v'])
         return [0, code] + S(line)
+    if m['m'] == 'del':
+        return [6] + S(m['n'])
+    if m['m'] == 'clear':
+        return [7]
+    if m['m'] == 'delcookie':
+        return [3] + S(m['n']) + S(cookie_rendered(m['n'], '', dict(DELETE_OPTS, **(m.get('opts') or {}))))
+    if m['m'] == 'cookie':
+        return [3] + S(m['n']) + S(cookie_rendered(m['n'], m['v'], m.get('opts')))
     if m['m'] == 'set':
-        return [1] + S(m['n']) + S(m['v'])
+        return [1] + S(m['n']) + S(str(m['v']))
     if m['m'] == 'add':
         return [2] + S(m['n']) + S(m['v'])
     if m['m'] == 'rmhook':
@@ -808,15 +831,99 @@ def enc_mut(m):
     return [3] + S(m['n']) + S(cookie_rendered(m['n'], m['v']))
 
 
+def bad_mut_exc(m):
+    w = m['what']
+    if w == 'ctl':
+        return ValueError('Header value must not contain control characters: %r' % m['v'])
+    if w == 'type':
+        return TypeError("Header value must be type of (str, int, float, bool, None), got: %s" % type(b''))
+    if w == 'status':
+        return ValueError('Status code out of range.' if isinstance(m['v'], int) or ' ' in m['v']
+                          else 'String status line without a reason phrase.')
+    if w == 'cookie-type':
+        return TypeError('Secret key missing for non-string Cookie.')
+    return ValueError('Cookie value to long.')
+
+
+class SimResp:
+    """headers and cookies of the response object after a list of mutations (for redirect(), which copies them)"""
+
+    def __init__(self):
+        self.h = {}
+        self.jar = http.cookies.SimpleCookie()
+
+    def apply(self, m):
+        k = m['m']
+        if k == 'set':
+            self.h[m['n']] = str(m['v'])
+        elif k == 'add':
+            old = self.h.get(m['n'])
+            if old is None:
+                self.h[m['n']] = m['v']
+            elif isinstance(old, list):
+                old.append(m['v'])
+            else:
+                self.h[m['n']] = [old, m['v']]
+        elif k == 'del':
+            self.h.pop(m['n'], None)
+        elif k == 'clear':
+            if m.get('ns') is None:
+                self.h.clear()
+            else:
+                for n in m['ns']:
+                    self.h.pop(n, None)
+        elif k == 'update':
+            self.h.update(dict(m['items']))
+        elif k == 'cookie':
+            cookie_morsel(self.jar, m['n'], m['v'], m.get('opts'))
+        elif k == 'delcookie':
+            cookie_morsel(self.jar, m['n'], '', dict(DELETE_OPTS, **(m.get('opts') or {})))
+
+
+_ENC = {'case': None, 'prior': []}
+
+
+def request_url(case):
+    return 'http://localhost' + quote(request_path(case))
+
+
+def redirect_result(res, muts):
+    """what redirect(loc, code) raises: a copy of the response object (BaseResponse.copy) with status, empty
+    body and Location"""
+    case = _ENC['case']
+    sim = SimResp()
+    for m in _ENC['prior'] + muts:
+        sim.apply(m)
+    if any(isinstance(v, list) for v in sim.h.values()):
+        # copy() re-appends every stored value through _hval, which refuses a list
+        e = TypeError("Header value must be type of (str, int, float, bool, None), got: %s" % type([]))
+        return [2] + S(json.dumps(repr(e)))
+    code = res.get('code') or (303 if case.get('proto', 'HTTP/1.1') == 'HTTP/1.1' else 302)
+    hs = dict(sim.h)
+    hs['Location'] = urljoin(request_url(case), res['loc'])
+    new = http.cookies.SimpleCookie()
+    if sim.jar:
+        new.load(sim.jar.output(header=''))
+    r = dict(status=code, headers=[[n, v] for n, v in hs.items()], cookies=[],
+             cookies_rendered=[[k, m.OutputString()] for k, m in new.items()], body=dict(k='falsy', v='estr'))
+    return [1, 0] + enc_resp(r)
+
+
 def enc_hprog(h):
+    muts = h['muts']
+    bad = next((i for i, m in enumerate(muts) if m['m'] == 'bad'), None)
+    if bad is not None:
+        return enc_muts(muts[:bad]) + [2] + S(json.dumps(repr(bad_mut_exc(muts[bad]))))
     res = h['res']
     if res['k'] == 'ret':
         r = [0] + enc_out(res['o'])
     elif res['k'] == 'raise_http':
         r = [1, int(res['err'])] + enc_resp(res['r'])
+    elif res['k'] == 'redirect':
+        r = redirect_result(res, muts)
     else:
         r = [2] + S(BOOM_EJSON)
-    return enc_list(h['muts'], enc_mut) + r
+    return enc_muts(muts) + r
 
 
 def enc_eh(entry):
@@ -824,6 +931,13 @@ def enc_eh(entry):
     if spec['k'] == 'const':
         return [code, 0] + enc_out(spec['o'])
     return [code, {'body': 1, 'same': 2, 'raise': 3}[spec['k']]]
+
+
+def is_json(case):
+    """request.is_json_requested: the Accept header starts with application/json"""
+    if case.get('accept') is not None:
+        return case['accept'].startswith('application/json')
+    return bool(case['json'])
 
 
 def url_repr(case):
@@ -835,10 +949,15 @@ def encode(case):
         tbl = enc_list(sorted(PHRASES.items()), lambda kv: [kv[0]] + S(kv[1]))
         a = case['arg']
         return [1] + tbl + ([0, a] if isinstance(a, int) else [1] + S(a))
+    if model_skipped(case):
+        return [1, 0, 0, 200]
     if case['kind'] == 'pair':
         blocks = [encode(v)[1:] for v in variants(case)]
         return [2, len(blocks)] + [x for b in blocks for x in [len(b)] + b]
     rt = case['routing']
+    _ENC['case'] = case
+    _ENC['prior'] = [m for h in case['before'] for m in h['muts']] + \
+        ([m for h in rt['rhooks'] for m in h['muts']] if rt['k'] == 'ok' else [])
     if rt['k'] == '404':
         r = [0] + ([0] if rt.get('partial') is None else [1] + enc_hprog(rt['partial']))
     elif rt['k'] == '405':
@@ -847,7 +966,8 @@ def encode(case):
         r = [2] + enc_list(rt['rhooks'], enc_hprog) + enc_hprog(rt['h'])
     # the last registration for a code wins (dict assignment)
     eh = list({code: (code, spec) for code, spec in case['eh']}.values())
-    return ([0, int(case['method'] == 'HEAD'), int(case['fw']), int(case['json'])]
+    tag = 0 if (case.get('cfg') or {}).get('catchall', True) else 3
+    return ([tag, int(case['method'] == 'HEAD'), int(case['fw']), int(is_json(case))]
             + S(url_repr(case)) + S(request_path(case))
             + enc_list(eh, enc_eh) + enc_list(case['before'], enc_hprog) + enc_list(case['after'], enc_hprog) + r)
 
@@ -882,6 +1002,8 @@ def dec_event(q):
 
 
 def decode(out, case):
+    if model_skipped(case):
+        return dict(skipped=model_skipped(case))
     if case['kind'] == 'pair':
         q = Reader(out)
         n = q.int()
@@ -954,7 +1076,11 @@ def closables(case):
 
 
 def fails(h):
-    return h['res']['k'] != 'ret'
+    return h['res']['k'] != 'ret' or any(m['m'] == 'bad' for m in h['muts'])
+
+
+def crashes(h):
+    return h['res']['k'] == 'raise_exc' or any(m['m'] == 'bad' for m in h['muts'])
 
 
 def well_typed_iterables(case):
